@@ -2,11 +2,12 @@ package main
 
 import (
 	"fmt"
-	"sync"
 	"go/constant"
 	"go/token"
 	"go/types"
 	"strings"
+	"sync"
+	"time"
 
 	"golang.org/x/tools/go/ssa"
 )
@@ -101,21 +102,22 @@ type Exec struct {
 	allocs    int
 	steps     int
 	maxSteps  int
+	deadline  time.Time // wall-clock budget of the harness (zero: none)
 	depth     int
 	cur       *Frame
 
-	findings  []Finding
-	reached   map[string]bool
-	asserted  map[string]int // label -> discharged count
-	fnEntered map[*ssa.Function]bool
-	observes  []string
-	obsTerms  map[string]*Term
-	obsOrder  []string
-	witness   *Witness
+	findings    []Finding
+	reached     map[string]bool
+	asserted    map[string]int // label -> discharged count
+	fnEntered   map[*ssa.Function]bool
+	observes    []string
+	obsTerms    map[string]*Term
+	obsOrder    []string
+	witness     *Witness
 	foundLabels *sync.Map
 	wantWitness bool
-	fixed     *modelFile
-	incon     []string // inconclusive notes (unknown verdicts)
+	fixed       *modelFile
+	incon       []string // inconclusive notes (unknown verdicts)
 
 	// environment stubs
 	clockBase  *Term // 32-bit ms clock as of the current API call
@@ -138,7 +140,7 @@ type Exec struct {
 	monitorOn bool
 	picks     map[string]uint64
 	qsites    bool
-	pcDirty   bool // assumptions were added without a feasibility check
+	pcDirty   bool   // assumptions were added without a feasibility check
 	model     *Model // a model of the current path condition (nil if none is known)
 	mcache    map[*Term]uint64
 	noModel   bool
@@ -237,6 +239,9 @@ func (ex *Exec) syncSolver(i int) {
 func (ex *Exec) check(extra *Term, keep bool) Verdict {
 	if extra.IsFalse() {
 		return Unsat
+	}
+	if !ex.deadline.IsZero() && time.Now().After(ex.deadline) {
+		panic(pathEnd{kind: endBudget, msg: "wall-clock budget of the harness exhausted"})
 	}
 	if ex.qsites {
 		ex.counters["q@"+ex.where()]++
